@@ -33,6 +33,10 @@ var (
 	inputSource *os.File
 )
 
+// StdinReader returns that reader, so that the interactive prompt takes its
+// lines from the same buffer as the input calls made by those lines.
+func StdinReader() *bufio.Reader { return stdinReader() }
+
 func stdinReader() *bufio.Reader {
 	if inputReader == nil || inputSource != os.Stdin {
 		inputSource = os.Stdin
